@@ -216,42 +216,67 @@ def stored_timestamp(R, ctx):
     R.check('R09.4', f"{b.path}|ts-replaced", n2 > 0, f"{n2} rows: stored timestamp := result", 'no rows', where=b.loc())
     # inside creation_timestamp_of_currentfile: the rotated name uses the given date when present
     cb = ctx.body(r'^writers::file_log_writer::state::timestamps::creation_timestamp_of_currentfile$')
-    EFF = [r'^std::fs::rename$', r'state::get_creation_timestamp$', r'path_for_rotated_file_from_timestamp$', r'FileSpec::as_pathbuf$']
-    I = FDI(f, effects=EFF, no_inline=EFF)
-    rws = I.run(cb.path)
     good = 0
-    for r in rws:
-        if r.undecided:
-            R.bad('R09.4', f"{cb.path}|name-from-date", f"UNDECIDED {r.undecided}", where=cb.loc())
+    for d in rotated_name_rows(ctx):
+        if d.get('error'):
+            R.bad('R09.4', f"{cb.path}|name-from-date", d['error'], where=cb.loc())
             return
-        rot = r.get('rotate_rcurrent')
-        od = r.get('variant(o_date_for_rotated_file)')
-        pe = [e for e in r.effects if e[0].endswith('path_for_rotated_file_from_timestamp')]
-        ren = [e for e in r.effects if e[0] == 'std::fs::rename']
-        if rot is False:
-            if pe or ren:
-                R.bad('R09.4', f"{cb.path}|name-from-date", "renames although rotate flag is false", where=cb.loc())
-                return
-            continue
-        if len(pe) != 1 or len(ren) != 1:
-            R.bad('R09.4', f"{cb.path}|name-from-date", f"rotate=true: {len(pe)} name computations, {len(ren)} renames", where=cb.loc())
-            return
-        datex = T.strip_refs(pe[0][2]['x'][2])
-        if od == 'Some':
-            okd = T.field_chain(datex) == ('o_date_for_rotated_file', '0') or 'o_date_for_rotated_file' in repr(datex)
-        else:
-            okd = datex[0] == 'eff' and datex[1].endswith('get_creation_timestamp')
-        src = T.strip_refs(ren[0][2]['x'][0])
-        dst = T.strip_refs(ren[0][2]['x'][1])
-        oksrc = 'as_pathbuf' in repr(src) and 'current_infix' in repr(src)
-        okdst = 'path_for_rotated_file_from_timestamp' in repr(dst)
-        if not (okd and oksrc and okdst):
-            R.bad('R09.4', f"{cb.path}|name-from-date", f"rotated name/date deviates for o_date={od}: date from expected source: {okd}; rename source = current path: {oksrc}; "
-                  f"target = path_for_rotated_file_from_timestamp: {okdst}", where=cb.loc(), witness=[str(pe[0][1]), str(ren[0][1])])
+        if not (d['date_ok'] and d['src_ok'] and d['chain_ok']):
+            R.bad('R09.4', f"{cb.path}|name-from-date", f"rotated name/date deviates for o_date={d['od']}: date from expected source: {d['date_ok']}; rename source = current path: {d['src_ok']}; "
+                  f"target = as_pathbuf(collision_free(infix_from_timestamp(date))): {d['chain_ok']}", where=cb.loc(), witness=[d['witness']])
             return
         good += 1
     R.check('R09.4', f"{cb.path}|name-from-date", good >= 2, f"{good} rows: rotated name from the given date (else the file's creation time)", 'rows missing', where=cb.loc())
 
+
+_ROT_NAME = {}
+
+
+def rotated_name_rows(ctx):
+    """rows of creation_timestamp_of_currentfile on which the current file is renamed: where the date of the rotated name comes from,
+    what is renamed, and whether the target is as_pathbuf(collision_free_infix(infix_from_timestamp(date))) - decided on these
+    effects themselves, so that a private helper computing the name may exist or be inlined"""
+    if ctx.cfg in _ROT_NAME:
+        return _ROT_NAME[ctx.cfg]
+    f = ctx.f
+    cb = ctx.body(r'^writers::file_log_writer::state::timestamps::creation_timestamp_of_currentfile$')
+    GC, IFT, CF, AP = r'state::get_creation_timestamp$', r'timestamps::infix_from_timestamp$', r'collision_free_infix_for_rotated_file$', r'FileSpec::as_pathbuf$'
+    EFF = [r'^std::fs::rename$', GC, IFT, CF, AP]
+    rws = FDI(f, effects=EFF, no_inline=EFF, max_steps=20000).run(cb.path)
+    out = []
+    for r in rws:
+        if r.undecided:
+            out.append({'error': f"UNDECIDED {r.undecided}"})
+            break
+        rot = r.get('rotate_rcurrent')
+        od = r.get('variant(o_date_for_rotated_file)')
+        ren = [e for e in r.effects if e[0] == 'std::fs::rename']
+        if rot is False:
+            if ren:
+                out.append({'error': "renames although rotate flag is false"})
+                break
+            continue
+        if len(ren) != 1:
+            out.append({'error': f"rotate=true: {len(ren)} renames"})
+            break
+        src = T.strip_refs(ren[0][2]['x'][0])
+        dst = T.strip_refs(ren[0][2]['x'][1])
+        # the chain inside the target
+        ap = [t for t in T.subterms(dst) if len(t) >= 4 and t[0] == 'eff' and re.search(AP, t[1])]
+        cf = [t for a_ in ap for t in T.subterms(a_[3]) if len(t) >= 4 and t[0] == 'eff' and re.search(CF, t[1])]
+        it = [t for c_ in cf for t in T.subterms(c_[3]) if len(t) >= 4 and t[0] == 'eff' and re.search(IFT, t[1])]
+        chain_ok = bool(ap and cf and it)
+        date_ok = False
+        for t in it:
+            datex = T.strip_refs(t[3][0]) if t[3] else None
+            if od == 'Some':
+                date_ok = date_ok or (datex is not None and 'o_date_for_rotated_file' in repr(datex))
+            else:
+                date_ok = date_ok or (isinstance(datex, tuple) and datex[0] == 'eff' and re.search(GC, datex[1]) is not None)
+        src_ok = 'as_pathbuf' in repr(src) and 'current_infix' in repr(src)
+        out.append({'od': od, 'date_ok': date_ok, 'src_ok': src_ok, 'chain_ok': chain_ok, 'witness': r.long(ren[0][1][1])[:300]})
+    _ROT_NAME[ctx.cfg] = out
+    return out
 
 def I_x(v):
     if isinstance(v, Const):
